@@ -84,6 +84,7 @@ type LockDef struct {
 	Name     string // Conn.mu
 	Inv      string // predicate name (one parameter: the owner)
 	Protects []string
+	Monotone []string
 }
 
 type ModSet struct {
@@ -227,8 +228,16 @@ func (db *ContractDB) loadFile(path string, extern bool) error {
 				return fmt.Errorf("%s:%d: bad lock", path, ln)
 			}
 			ld := &LockDef{Name: f[0], Inv: f[2]}
-			if len(f) > 3 && f[3] == "protects" {
-				ld.Protects = f[4:]
+			mode := ""
+			for _, w := range f[3:] {
+				switch {
+				case w == "protects" || w == "monotone":
+					mode = w
+				case mode == "protects":
+					ld.Protects = append(ld.Protects, w)
+				case mode == "monotone":
+					ld.Monotone = append(ld.Monotone, w)
+				}
 			}
 			db.Locks[f[0]] = ld
 		case word == "immutable":
@@ -381,11 +390,16 @@ func (db *ContractDB) loadFile(path string, extern bool) error {
 			cur.Asserts = append(cur.Asserts, &Clause{Kind: "assert", Point: m[1], Label: strings.Trim(m[2], "[]"), Mode: strings.TrimPrefix(m[3], "@"), Text: m[4], Expr: x, Line: ln})
 		case word == "ghost":
 			// ghost at exit|after <point>|before <point> [when cond]: lhs := expr
+			gmode := ""
+			if mm := regexp.MustCompile(`^(at exit|after \S+?|before \S+?)@(int|bv)\b`).FindStringSubmatch(rest); mm != nil {
+				gmode = mm[2]
+				rest = strings.Replace(rest, "@"+gmode, "", 1)
+			}
 			m := regexp.MustCompile(`^(at exit|after \S+|before \S+)(?:\s+when\s+(.*?))?:\s+(.*?)\s*:=\s*(.*)$`).FindStringSubmatch(rest)
 			if m == nil {
 				return fmt.Errorf("%s:%d: bad ghost", path, ln)
 			}
-			c := &Clause{Kind: "ghost", Point: m[1], Text: m[3] + " := " + m[4], Line: ln}
+			c := &Clause{Kind: "ghost", Point: m[1], Text: m[3] + " := " + m[4], Line: ln, Mode: gmode}
 			var err error
 			if m[2] != "" {
 				if c.When, err = parseExprAt(m[2], path, ln); err != nil {
